@@ -20,9 +20,10 @@ import (
 // order of the calls consistent with the stamps is decided in Coq (Lin.v).
 
 type FreeOp struct {
-	S int64 `json:"s"`
-	E int64 `json:"e"`
-	R int   `json:"r"`
+	S int64      `json:"s"`
+	E int64      `json:"e"`
+	R int        `json:"r"`
+	F [][2]int64 `json:"f,omitempty"` // Drain: the callbacks of this very Drain
 }
 
 type FreeTick struct {
@@ -72,10 +73,23 @@ func runFree(c Case) Out {
 		out.Err = err.Error()
 		return out
 	}
-	defer tw.Stop()
+	var stopped atomic.Bool
+	defer func() {
+		if !stopped.Load() {
+			tw.Stop()
+		}
+	}()
 	res := &FreeOut{Threads: make([][]FreeOp, len(c.Threads))}
 	var wg sync.WaitGroup
 	start := make(chan struct{})
+	stopCh := make(chan struct{}) // closed once Stop has returned: ticks are no longer forced on the wheel
+	type drainRec struct {
+		ti, oi int
+		mu     sync.Mutex
+		f      [][2]int64
+	}
+	var dmu sync.Mutex
+	var drains []*drainRec
 	for ti, script := range c.Threads {
 		wg.Add(1)
 		go func(ti int, script [][]any) {
@@ -92,6 +106,20 @@ func runFree(c Case) Out {
 					err = tw.MoveTimer(num(op[1]), time.Duration(num(op[2])))
 				case "remove":
 					err = tw.RemoveTimer(num(op[1]))
+				case "drain":
+					dr := &drainRec{ti: ti, oi: len(log)}
+					dmu.Lock()
+					drains = append(drains, dr)
+					dmu.Unlock()
+					err = tw.Drain(func(k, v any) {
+						dr.mu.Lock()
+						dr.f = append(dr.f, [2]int64{k.(int64), v.(int64)})
+						dr.mu.Unlock()
+					})
+				case "stop":
+					tw.Stop()
+					stopped.Store(true)
+					close(stopCh)
 				}
 				e := clock.Add(1)
 				log = append(log, FreeOp{S: s, E: e, R: errClass(err)})
@@ -105,8 +133,17 @@ func runFree(c Case) Out {
 		pause(c.TickPauseUs)
 		curTick.Store(t)
 		s := clock.Add(1)
-		tk.c <- time.Now()
+		taken := true
+		select {
+		case tk.c <- time.Now():
+		case <-stopCh:
+			taken = false // Stop has returned; the loop may be gone: this tick did not happen
+		}
 		e := clock.Add(1)
+		if !taken {
+			res.Ticks = append(res.Ticks, FreeTick{S: -1})
+			continue
+		}
 		// the loop has taken the tick; once it takes this no-op the slot has been scanned
 		// and the goroutine running this tick's callbacks has been started
 		tw.RemoveTimer(sentinel)
@@ -117,15 +154,34 @@ func runFree(c Case) Out {
 		res.Ticks = append(res.Ticks, FreeTick{S: s, E: e})
 	}
 	wg.Wait()
+	if !hx.Quiesce(cbBusy, 30*time.Second) {
+		out.Err = "callbacks did not quiesce"
+		return out
+	}
 	mu.Lock()
+	kept := res.Ticks[:0]
 	for i := range res.Ticks {
+		if res.Ticks[i].S < 0 {
+			continue // not received
+		}
 		f := perTick[int64(i+1)]
 		if f == nil {
 			f = [][2]int64{}
 		}
 		res.Ticks[i].F = f
+		kept = append(kept, res.Ticks[i])
 	}
+	res.Ticks = kept
 	mu.Unlock()
+	for _, dr := range drains {
+		dr.mu.Lock()
+		f := dr.f
+		if f == nil {
+			f = [][2]int64{}
+		}
+		res.Threads[dr.ti][dr.oi].F = f
+		dr.mu.Unlock()
+	}
 	out.Free = res
 	return out
 }
